@@ -200,7 +200,7 @@ func checkRecords(w *World, v *h.Verdict, step int, op Op, tz int) bool {
 					v.Failf("container-order-or-session", "step %d (%s): position %d of session %s holds container lsn %d, reported was lsn %d", step, op.K, i, se.ref, g.LSN, m.LSN)
 					return false
 				}
-				if g.RG != int64(m.RG) || g.Tot != int64(m.Tot) || g.Up != int64(m.Up) || g.Down != int64(m.Down) || g.SSU != int64(m.SSU) {
+				if g.RG != int64(act(st.supi, m.RG)) || g.Tot != int64(m.Tot) || g.Up != int64(m.Up) || g.Down != int64(m.Down) || g.SSU != int64(m.SSU) {
 					v.Failf("container-content", "step %d: container lsn %d recorded as %+v, reported %+v", step, m.LSN, g, m)
 					return false
 				}
@@ -390,7 +390,7 @@ func judgeRecords(prop string) func(Hist) *h.Verdict {
 			} else {
 				switch op.K {
 				case "update":
-					snap := verifapi.Snapshot(st.supi)
+					snap := snapshot(st.supi)
 					if !checkFile(st, v, step, op, snap.NRecords, usageBytes(res)) {
 						return v
 					}
@@ -406,7 +406,7 @@ func judgeRecords(prop string) func(Hist) *h.Verdict {
 }
 
 func genRecHist(t *rapid.T) Hist {
-	hst := genHist(t, genOpts{maxSubs: 2, maxSess: 3, minOps: 4, maxOps: h.Scale(18, 30), offline: true, jumbo: true})
+	hst := genHist(t, genOpts{maxSubs: 2, maxSess: 3, minOps: 4, maxOps: h.Scale(18, 30), offline: true, jumbo: true, rgNums: true})
 	hst.TZ = rapid.SampledFrom(zonePool).Draw(t, "tz")
 	return hst
 }
